@@ -95,6 +95,12 @@ def check_case(ctx, c):
             stat = coef * sum((-1) ** sum(b[q] for q in S) for b in bs) / len(bs)
             if abs(ev_m - stat) > 1e-9:
                 out.append(("measured-expectation", "%s: <%s> from measurements %s, statistic of the returned tuples %s" % (desc, term, ev_m, stat)))
+            # the same outcomes seen in another order (another run of the same circuit): the value is the statistic of the
+            # measurement set it is computed from, whatever was evaluated before
+            bs_r = bs[::-1]
+            ev_r = Measurements(list(bs_r)).get_expectation_values(PauliSum([term])).values[0]
+            if abs(ev_r - stat) > 1e-9:
+                out.append(("measured-expectation:reordered", "%s: <%s> from the same tuples listed in reverse order %s, statistic %s" % (desc, term, ev_r, stat)))
             if len(support) == 1 and abs(ev_m - coef * ring(z["v"]).real) > 1e-9:
                 out.append(("measured-expectation:basis", "%s: basis state, <%s> from measurements %s, exact %s" % (desc, term, ev_m, coef * ring(z["v"]).real)))
     # a batch mixing this circuit with the same operations on a WIDER register (idle qubits at the end) and an empty one:
@@ -141,6 +147,22 @@ def check_case(ctx, c):
         avg = coef * sum(d.get(t, 0) * (-1) ** sum(t[q] for q in S) for t in d)
         if abs(got - avg) > 1e-9:
             out.append(("exact-vs-distribution", "%s: exact <%s> = %s but eigenvalue average under the exact distribution = %s" % (desc, term, got, avg)))
+    # Z-type SUMS as a caller may write them (the same Z-string more than once, not adjacent, a constant in between): the exact
+    # expectation is the eigenvalue average = the sum of the terms' exact values
+    zs_ = c["z"]
+    if len(zs_) >= 2:
+        for a_, b_ in ((0, len(zs_) - 1), (len(zs_) // 2, 1)):
+            za, zb = zs_[a_], zs_[b_]
+            coefs = (1.0, 0.5, 2.0, -0.25)
+            opsum = PauliSum([PauliTerm({q: "Z" for q in za["S"]}, coefs[0]), PauliTerm({q: "Z" for q in zb["S"]}, coefs[1]), PauliTerm({q: "Z" for q in za["S"]}, coefs[2]), PauliTerm({}, coefs[3]), PauliTerm({q: "Z" for q in zb["S"]}, coefs[1])])
+            wantv = (coefs[0] + coefs[2]) * ring(za["v"]).real + 2 * coefs[1] * ring(zb["v"]).real + coefs[3]
+            try:
+                gotv = complex(sim.get_exact_expectation_values(circ, opsum))
+            except Exception as ex:
+                out.append(("exact-expectation:sum:raises", "%s: exact expectation of %s: %s: %s" % (desc, opsum, type(ex).__name__, str(ex)[:200])))
+                continue
+            if abs(gotv - wantv) > 1e-9:
+                out.append(("exact-expectation:sum", "%s: exact <%s> = %s, eigenvalue average under the exact distribution %s" % (desc, opsum, gotv, wantv)))
     return out
 
 
